@@ -92,6 +92,13 @@ def run(ctx):
                 hits[cl] = hits.get(cl, 0) + 1
             else:
                 unexpl.append(("mailbox display", "name=%r addr=%r: %s" % (n, a, o)))
+    # serialization (serde): tied to Display / FromStr, plus the object and sequence forms; names with CR / LF make Display fail (F1) and are left out
+    ser_lists = [[(n, a)] for n, a in cases if not (n and any(c in n for c in "\r\n"))][:400] + \
+                [[(rng.choice([x for x in names[:40] if not (x and any(c in x for c in "\r\n"))]), rng.choice(addrs)) for _ in range(k)] for k in (0, 2, 3, 9) for _ in range(6)]
+    sl = ["mboxes.serde\t" + ";".join("%s,%s" % ("!" if n is None else hx(U(n)), hx(U(a))) for n, a in l) for l in ser_lists]
+    sres = run_impl(sl)
+    ctx.count(len(sl))
+    ser_bad = [(l, unhx(r.split("\t")[1]).decode("utf-8", "replace") if r.startswith("bad\t") else r) for l, r in zip(sl, sres) if r != "ok"]
     # lists of 0..50
     lists = [[]] + [[(rng.choice(names[:10] + ["Doe, John", "a  b"]), rng.choice(addrs[:4])) for _ in range(k)] for k in (1, 2, 3, 7, 50)] * (2 if ctx.tier == "quick" else 40)
     ll = ["mboxes.display\t" + ";".join("%s,%s" % ("!" if n is None else hx(U(n)), hx(U(a))) for n, a in l) for l in lists]
@@ -155,6 +162,7 @@ def run(ctx):
     ctx.cov["correspondence"] = {"mbox.parse/mboxes.parse": {"cases": 2 * len(strs), "exhaustive_alphabet": "a 1 @ \" \\ . < > SP , U+00E9 TAB", "exhaustive_maxlen": maxlen, "exhaustive_count": n_exh, "disagreements": len(diffs)},
                                  "mbox.display": {"cases": len(dl), "disagreements": len(ddiff)}, "mboxes.display": {"cases": len(ll), "disagreements": len(ldiff)},
                                  "hdrs.ops": {"sequences": len(ol), "disagreements": len(odiff)}}
+    ctx.cov.setdefault("oracle_serde", {"serde_tied_to_display_and_fromstr": {"cases": len(sl), "failures": len(ser_bad)}})
     ctx.cov["oracle"] = {"display_then_parse_on_impl": {"mailboxes": len(cases), "lists": len(lists), "unexplained": len(unexpl), "known_class_hits": dict(hits)},
                          "typed_header_get_set_on_impl": {"cases": len(tl), "failures": len(tbad)}}
     ctx.cov["exhaustive"] = True
@@ -164,6 +172,8 @@ def run(ctx):
         ctx.known_lines.append("%s: %s (%d generated cases in this class)" % (cl, known[cl]["what_fails"], n))
     if unexpl:
         ctx.violation({"kind": "oracle", "entry": unexpl[0][0], "what": unexpl[0][1], "failures": len(unexpl)})
+    if ser_bad:
+        ctx.violation({"kind": "oracle", "entry": "serde of Mailbox / Mailboxes", "line": ser_bad[0][0][:2000], "what": ser_bad[0][1][:600], "failures": len(ser_bad)})
     if tbad:
         ctx.violation({"kind": "oracle", "entry": "typed header stored and read back", "line": tbad[0][0], "impl": tbad[0][1][:300], "failures": len(tbad)})
     if (diffs or ddiff or ldiff or odiff) and not ctx.violations:
